@@ -66,6 +66,11 @@ class C16(Check):
         for owners in (0b0001, 0b0010, 0b0011, 0b0101, 0b0111, 0b1011, 0b1111, 0b1010):
             for target in range(4):
                 out.append({"part": "laws", "owners": owners, "target": target, "extra": self.bounds[tier]["extra_ops"]})
+        # classes created afresh on every path and no default set created up front: what is constructed first must not
+        # become (or alter) the shared default set of its class
+        for owners in (0b0111, 0b1111):
+            for target in (1, 2, 3):
+                out.append({"part": "laws", "owners": owners, "target": target, "extra": 0, "fresh": True})
         out.append({"part": "meta"})
         return out
 
@@ -78,6 +83,10 @@ class C16(Check):
         self.Frame, self.geometry = Frame, geometry
         if shape["part"] != "laws":
             return
+        self.make_classes(shape)
+
+    def make_classes(self, shape):
+        Renderable, ArgsNamespace, Frame, geometry = self.Renderable, self.ArgsNamespace, self.Frame, self.geometry
         owners = shape["owners"]
         cls = {}
         ns = {}
@@ -130,13 +139,22 @@ class C16(Check):
         if shape["part"] == "meta":
             return self.meta(eng)
         RenderArgs, T = self.RenderArgs, self.T
+        fresh = bool(shape.get("fresh"))
+        if fresh:
+            self.make_classes(shape)
         cls, ns = self.cls, self.ns
         owners = sorted(ns)
         tname = NAMES[shape["target"]]
         tcls = cls[tname]
-        defaults = {n: RenderArgs(cls[n]) for n in NAMES}
+
+        class Lazy(dict):
+            def __missing__(s_, n):
+                s_[n] = RenderArgs(cls[n])
+                return s_[n]
+
+        defaults = Lazy() if fresh else {n: RenderArgs(cls[n]) for n in NAMES}
         live = list(defaults.values())
-        ok_defaults = all(set(defaults[n]._namespaces) == {cls[m] for m in self.expected_members(n)} for n in NAMES)
+        ok_defaults = fresh or all(set(defaults[n]._namespaces) == {cls[m] for m in self.expected_members(n)} for n in NAMES)
         eng.claim("the default set of every class holds a namespace exactly for the classes of its hierarchy that own one", ok_defaults)
         if not ok_defaults:
             eng.reachable()
@@ -219,6 +237,10 @@ class C16(Check):
         if exp_vals:
             n0 = next(iter(exp_vals))
             eng.claim("membership test: contains a namespace equal to the one it holds", ns[n0](SymIntOf(exp_vals[n0])) in a)
+        if fresh:
+            dflt = RenderArgs(tcls)
+            eng.claim("the shared default set of a class holds the default values whatever was constructed before it was first asked for",
+                      z3.And(*[self.holds(dflt, n) == 10 + NAMES.index(n) for n in self.expected_members(tname)]) if self.expected_members(tname) else True)
         live.append(a)
         cur, cur_name, cur_vals = a, tname, exp_vals
         for i in range(shape["extra"]):
